@@ -93,6 +93,19 @@ INPUT_SIGS = {
 }
 
 
+ASINPUT_SPECS = "    // what the conversion must produce: the sub-input's bounds; `valid` = the value's own invariant\n    spec fn as_ctx(&self) -> Ctx<'i>;\n    spec fn valid(&self) -> bool;"
+ASINPUT_CONTRACT = '        requires self.valid(),\n        ensures r.ctx() == self.as_ctx(), r.off() == self.as_ctx().start, input_inv(r.ctx(), r.off()),'
+ASINPUT_DECL = '''
+// input.rs:256-263 AsInput (contract only here; the impls are verified in unit `input`)
+pub trait AsInput<'i> {
+    type Output: Input<'i>;
+%s
+    fn as_input(&self) -> (r: Self::Output)
+%s;
+}
+''' % (ASINPUT_SPECS, ASINPUT_CONTRACT.rstrip(','))
+
+
 def input_trait_decl(methods):
     body = []
     for m in methods:
